@@ -603,10 +603,13 @@ type coopReq struct {
 }
 type coopCase struct {
 	Thr, Burst int64
-	Pre        int         `json:"pre"` // single-token requests for "x" made sequentially before the race
-	Workers    [][]coopReq `json:"workers"`
-	Strat      string      `json:"strategy"`
-	Choices    []byte      `json:"choices,omitempty"`
+	Pre        int `json:"pre"` // single-token requests for "x" made sequentially before the race
+	// Idle > 0: after the warm-up the value stays idle for Idle durations (+1 ms); the racing callers then ask for no
+	// more than the threshold in total, so every one of them must be granted
+	Idle    int         `json:"idle_durations,omitempty"`
+	Workers [][]coopReq `json:"workers"`
+	Strat   string      `json:"strategy"`
+	Choices []byte      `json:"choices,omitempty"`
 }
 
 func coopEngine() {
@@ -614,7 +617,7 @@ func coopEngine() {
 	defer run.Finish()
 	run.Rule("schedule = (reject-mode rule threshold 1-3 burst 0-2, 0-2 sequential warm-up requests, 2-3 callers x 1-3 requests of batch 1-2 for values x / y, choice sequence at every atomic access of traffic_shaping.go and every lock acquisition of the parameter caches) under random walk, PCT d<=3 and bounded DFS, frozen clock; tokens admitted per value <= threshold+burst, every caller terminates; distinct = distinct (case, interleaving).")
 	run.Assume("frozen clock: all requests lie in the first duration after the value was first seen", "Go atomics sequentially consistent; lock acquisitions are the only scheduling points inside the caches")
-	vclock.New(1900000000000)
+	cclk := vclock.New(1900000000000)
 	{
 		c0 := atomic.LoadUint64(&vatomic.Count)
 		hotspot.LoadRulesOfResource("c05-calib", []*hotspot.Rule{{ID: "c", Resource: "c05-calib", MetricType: hotspot.QPS, ControlBehavior: hotspot.Reject, ParamIndex: 0, Threshold: 1, DurationInSec: 1}})
@@ -631,6 +634,13 @@ func coopEngine() {
 	}
 	gen := func(rng *rand.Rand) *coopCase {
 		c := &coopCase{Thr: int64(1 + rng.Intn(3)), Burst: int64(rng.Intn(3)), Pre: rng.Intn(3)}
+		if rng.Intn(4) == 0 {
+			c.Thr, c.Idle, c.Pre = 3, 1+rng.Intn(5), rng.Intn(6)
+			for w, k := 0, 2+rng.Intn(2); w < k; w++ {
+				c.Workers = append(c.Workers, []coopReq{{Val: "x", Batch: 1}})
+			}
+			return c
+		}
 		for w, k := 0, 2+rng.Intn(2); w < k; w++ {
 			var rs []coopReq
 			for i, n := 0, 1+rng.Intn(3); i < n; i++ {
@@ -653,6 +663,11 @@ func coopEngine() {
 				e.Exit()
 			}
 		}
+		rejectedAfterIdle := 0
+		if c.Idle > 0 {
+			cclk.AddMs(uint64(c.Idle)*1000 + 1)
+			admitted = map[string]int64{}
+		}
 		fns := make([]func(), len(c.Workers))
 		for w := range c.Workers {
 			w := w
@@ -662,6 +677,8 @@ func coopEngine() {
 					if b == nil {
 						admitted[r.Val] += r.Batch
 						e.Exit()
+					} else {
+						rejectedAfterIdle++
 					}
 				}
 			}
@@ -678,6 +695,14 @@ func coopEngine() {
 		}
 		for w, p := range r.Panics {
 			run.Violation("C05/coop:panic", fmt.Sprintf("caller %d panicked: %s", w, p), c)
+			return
+		}
+		if c.Idle > 0 {
+			if rejectedAfterIdle > 0 {
+				run.Violation("C05/coop:idle-value-not-granted", fmt.Sprintf("value \"x\" had been idle for %d durations; %d concurrent single-token requests (threshold %d) arrived and %d of them were rejected", c.Idle, len(c.Workers), c.Thr, rejectedAfterIdle), c)
+				return
+			}
+			run.Distinct(vk.Hash("idle", c.Burst, c.Pre, c.Idle, len(c.Workers), string(r.Choices)))
 			return
 		}
 		for v, n := range admitted {
